@@ -167,7 +167,7 @@ def run(ctx: Ctx) -> None:
         "accepted plan is exported and decided by the Lean planOK (closed, acyclic, disjoint non-empty outputs) and run under a watchdog in SYNC and "
         "THREADING; non-trivial = plan has a JOIN or TFS step or >=2 independent FG steps"
     )
-    nreq = ctx.budget(120, 700)  # thorough: 700 requests x 6 preparations x 4 hash-seed children + SYNC/THREADING runs (2500 did not finish within the 90-minute limit once the extension topics were added)
+    nreq = ctx.budget(120, 250)  # thorough: 250 requests x 6 preparations x 4 hash-seed children + SYNC/THREADING runs (2500, and then 700, did not finish within the 90-minute limit once the extension topics were added)
     nprep = 3 if ctx.quick else 6
     specs = []
     for k in range(nreq):
